@@ -102,6 +102,8 @@ pub fn esc(all: bool) -> BoxedStrategy<Esc> {
     prop_oneof![
         4 => prop::sample::select(v),
         1 => (1u16..128).prop_filter("U+001E is the frame separator of the output protocol", |v| *v != 0x1e).prop_map(Esc::Ascii),
+        // code points that are special to the Scheme reader, to `format`, or to find's own format language
+        2 => prop::sample::select(vec![34u16, 92, 126, 37, 40, 41, 59, 35, 39, 10, 9, 13, 1, 127, 48, 65]).prop_map(Esc::Ascii),
     ]
     .boxed()
 }
